@@ -116,7 +116,8 @@ int parse_instruction_avr8(AsmContext *asm_context, char *instr)
       break;
     }
 
-    if (operand_count > 2)
+    // operands[] holds two entries.
+    if (operand_count >= 2)
     {
       print_error_opcount(asm_context, instr);
       return -1;
